@@ -10,6 +10,9 @@ import (
 // EvalBoolFunc partially evaluates fn (a predicate over one integer-like parameter) for the given constant
 // argument by propagating constants through comparisons, boolean operators, phis and branches. No code is
 // executed; anything outside this fragment makes the result undecided (ok == false).
+// EnumCallHook, if set, evaluates calls (library predicates of the enum type) from already known operand values.
+var EnumCallHook func(c *ssa.Call, get func(ssa.Value) (constant.Value, bool)) (constant.Value, bool)
+
 func EvalBoolFunc(fn *ssa.Function, arg constant.Value) (result bool, ok bool) {
 	if len(fn.Blocks) == 0 || len(fn.Params) < 1 {
 		return false, false
@@ -63,6 +66,15 @@ func EvalBoolFunc(fn *ssa.Function, arg constant.Value) (result bool, ok bool) {
 					return false, false
 				}
 				vals[x] = constant.MakeBool(!constant.BoolVal(v))
+			case *ssa.Call:
+				if EnumCallHook == nil {
+					return false, false
+				}
+				v, ok := EnumCallHook(x, get)
+				if !ok {
+					return false, false
+				}
+				vals[x] = v
 			case *ssa.Convert:
 				v, ok := get(x.X)
 				if !ok {
